@@ -174,9 +174,9 @@ func ruleTolerance(w *World, r *Report, nt *nodeTypes) {
 						name = valueName(x)
 					}
 					si.bad = append(si.bad, "call of "+name+" at "+w.Pos(x.Pos()))
-				for _, a := range x.Call.Args {
-					slice(a, si, seen, depth+1)
-				}
+					for _, a := range x.Call.Args {
+						slice(a, si, seen, depth+1)
+					}
 				}
 			}
 		}
